@@ -124,7 +124,7 @@ class Gen:
                 rd.append({"op": "get", "k": k, "v": 0})
                 rd.append({"op": rng.choice(["get", "exists"]), "k": k, "v": 0})
         threads.append({"ops": rd, "faults": []})
-        max_wb = sum(1 for t in threads for o in t["ops"] if o["op"] in ("get", "append", "remove"))
+        max_wb = sum(len(t["ops"]) for t in threads) + 1   # one slot per operation: any of them might spawn an asynchronous tier call
         n = len(threads)
         total = sum(len(t["ops"]) for t in threads[:-1])
         idx = list(range(n - 1)) + list(range(n, n + max_wb))
@@ -198,6 +198,26 @@ def nodes_witnesses():
         W.append({"mode": "nodes", "shared": shared, "pers": True, "nodes": 3, "keys": [key], "kinds": ["s"], "init": [{"tier": 2, "k": 0, "v": 1}],
                   "steps": [st(0, "get"), st(1, "set", 2), st(0, "set", 1)] + probes})
     return W
+
+
+def nodes_prefix_cases(tables):
+    """for EVERY prefix of the regenerated prefix tables (keys under a shared prefix that also lies under a documented runtime prefix
+    are in there by construction): written on node A, read / exists / deleted / list-appended on node B and on a cold node, over a shared
+    cache, with and without the persistent tier.  Judged by the class the tables intend (most specific prefix wins)."""
+    out = []
+    st = lambda n, op, k=0, v=0: {"node": n, "op": {"op": op, "k": k, "v": v}}
+    for tbl in ("shared", "shared_persistent", "persistent", "runtime"):
+        for p in tables[tbl]:
+            for sfx in ("1", "") if not p.endswith(":") else ("1", "x:y"):
+                keys = [p + sfx, p + sfx + "L"]
+                for pers in (True, False):
+                    steps = [st(0, "set", 0, 1), st(1, "get"), st(1, "exists"), st(-1, "get"), st(1, "del"), st(0, "get"), st(0, "exists"), st(-1, "exists"),
+                             st(1, "set", 0, 2), st(0, "get"), st(-1, "get"),
+                             st(0, "append", 1, 1), st(1, "append", 1, 2), st(-1, "get", 1), st(1, "get", 1), st(0, "get", 1),
+                             st(0, "remove", 1, 2), st(1, "get", 1), st(-1, "get", 1)]
+                    out.append({"mode": "nodes", "shared": True, "pers": pers, "nodes": 2, "keys": keys, "kinds": ["s", "l"], "init": [],
+                                "steps": steps, "prefix": p, "table": tbl})
+    return out
 
 
 def nodes_case(rng, cats, fixed):
@@ -445,7 +465,7 @@ def classify(c, o, v, fixed):
 def classify_nodes(c, o, v):
     """a stale read from a node whose PRIVATE local cache still holds what that node saw earlier is inherent to node-local caching
     (bounded only by the cache TTL); everything else — cold-cache nodes, shared-cache classes, the writer itself — must be fresh"""
-    cat = o["cats"][v["k"]]
+    cat = o["intended"][v["k"]]          # the class the prefix tables intend, not what getCategory answered
     local_cache = cat == 1 or (cat == 3 and not c["shared"])
     if v["kind"] == "cross-node-stale-read" and v["reader"] >= 0 and v["reader"] != v["writer"] and local_cache:
         return "cross-node-stale-local-cache"
@@ -490,6 +510,7 @@ def run(ctx, only_cases=None):
             cases.append(json.load(open(f)))
         cases += witness_cases(fixed)
         cases += nodes_witnesses()
+        cases += nodes_prefix_cases(vlib.run_harness(binary, [{"mode": "tables"}])[0])
         cases += [nodes_case(rng, cats, fixed["setnx"]) for _ in range(4000 if thorough else 500)]
         cases += alias_cases(rng, cats, 3000 if thorough else 300)
         g = Gen(rng, cats, fixed["setnx"])
@@ -526,6 +547,12 @@ def run(ctx, only_cases=None):
     stats = {"sched_cases": 0, "cat_cases": 0, "stress_cases": 0, "alias_mode_cases": sum(1 for c in cases if c.get("raw")), "nodes_steps": 0, "late_writebacks": 0, "writebacks_spawned": 0, "faults_injected": 0,
              "ops": 0, "predicate_failures_by_key": keys_hit}
     for c, o in zip(cases, outs):
+        if fixed["wb"]:
+            # the repaired facade makes NO asynchronous tier call (C14_no_stale_all_schedules: no write-back is ever spawned)
+            for a in (o.get("async") or [])[:1]:
+                ctx.violation("unexpected-async-tier-call", "real hybrid.Storage: %s(%r) on tier %d was called from a goroutine that belongs to no caller: %s"
+                              % (a["m"], a["key"], a["tier"], a["frame"]),
+                              {"case": c, "observed": {k2: o[k2] for k2 in ("logs", "sched", "final", "viol", "async", "results") if k2 in o}})
         if o.get("wb_missing") or o.get("overflow"):
             ctx.violation("writeback-not-observed", "a successful persistent read inside hybrid.Get was not followed by the asynchronous cache "
                           "write-back the model expects (or more write-backs than readers appeared)", {"case": c, "observed": o})
@@ -582,6 +609,8 @@ def run(ctx, only_cases=None):
             stats["cat_cases"] += len(c["keys"])
         elif c["mode"] == "nodes":
             stats["nodes_cases"] = stats.get("nodes_cases", 0) + 1
+            if c.get("prefix"):
+                stats["prefix_table_cases"] = stats.get("prefix_table_cases", 0) + 1
             if len({st["node"] for st in c["steps"]}) > 1 and any(st["op"]["op"] in ("set", "del", "setnx") for st in c["steps"]):
                 nontriv.add(json.dumps([c["steps"], c["init"], c["keys"], c["shared"], c["pers"]], sort_keys=True))
         else:
